@@ -9,6 +9,8 @@ LAYER = "serde"
 GEN = os.path.join(ROOT, "coq", LAYER, "Gen")
 PY_VT = "/usr/local/bin/python3-vt"
 SHIPPED = "/repo/schemas"
+REPO_MANIFEST = "/repo/Cargo.toml"
+TARGET_REPO = os.path.join(CACHE, "target_repo")
 KINDS = {"table": ("model", "DTable"), "plan": ("migration", "DPlan"), "config": ("config", "DConfig")}
 RULE = ("the K-serde documents (see C12: tool-written TableDef / MigrationPlan / VespertideConfig documents in struct order and in the "
         "to_value+$schema file form, mutated documents, quirk probes) + schema-guided mutants of tool-written documents that stay valid under "
@@ -18,7 +20,7 @@ RULE = ("the K-serde documents (see C12: tool-written TableDef / MigrationPlan /
 ASSUME = [
     "shipped schemas = /repo/schemas/*.json; generated schemas = output of /repo's vespertide-schema-gen built from the current working tree (cargo --frozen, target dir .cache/target_repo), both translated by tools/schema2coq.py (syntactic, trusted; unknown keywords make it fail)",
     "the validation relation `valid` (coq/serde/Model/SchemaOf.v) is tied to python-jsonschema 4.26 Draft2020-12 on every document of every run (K-schema, compared inside Coq)",
-    "valid_encode / decode_of_valid are NOT proved for all values: they are evaluated per generated case (test). Proved: fuel irrelevance of the validator, the `bounded` refutations, and per run by vm_compute: shipped-vs-generated equality (or the exact recorded difference), generated = schema_of",
+    "proved for all values: valid (schema_of_X) (encode v) = Some true for MigrationPlan / TableDef / VespertideConfig (valid_encode_*), fuel irrelevance of the validator, the `bounded` refutations; per run by vm_compute: shipped-vs-generated equality (or the exact recorded difference) and generated = schema_of. NOT proved: decode_of_valid (bounded, schema-valid => parsed) for all documents; it is evaluated on every generated / mutated / schema-guided document (a test)",
     "documents that repeat a member are outside the quantifier of 'schema-valid documents' (a validator sees the parsed map, the parser sees the text)",
     "the parser side is the K-serde model of C12 (see its assumptions: YAML text layer not modelled, integer literals in [2^63,2^64) at DefaultValue positions excluded)",
 ]
@@ -45,15 +47,15 @@ def gl_list(l):
 def regenerate():
     """build the real schema generator from the current tree, run it, translate shipped + generated"""
     env = dict(vflib.ENV)
-    env["CARGO_TARGET_DIR"] = os.path.join(CACHE, "target_repo")
+    env["CARGO_TARGET_DIR"] = TARGET_REPO
     env.pop("RUSTFLAGS", None)
-    rc, out, _ = vflib.sh(["cargo", "build", "--frozen", "-p", "vespertide-schema-gen", "--manifest-path", "/repo/Cargo.toml"], env=env, timeout=1800)
+    rc, out, _ = vflib.sh(["cargo", "build", "--frozen", "-p", "vespertide-schema-gen", "--manifest-path", REPO_MANIFEST], env=env, timeout=1800)
     if rc != 0:
         return None, "cargo build of vespertide-schema-gen failed: " + out[-2000:]
     gd = os.path.join(CACHE, "serde_gen_schemas")
     shutil.rmtree(gd, ignore_errors=True)
     os.makedirs(gd)
-    rc, out, _ = vflib.sh([os.path.join(CACHE, "target_repo", "debug", "vespertide-schema-gen"), "--out", gd], timeout=120)
+    rc, out, _ = vflib.sh([os.path.join(TARGET_REPO, "debug", "vespertide-schema-gen"), "--out", gd], timeout=120)
     if rc != 0:
         return None, "vespertide-schema-gen failed: " + out[-2000:]
     shutil.rmtree(GEN, ignore_errors=True)
